@@ -118,6 +118,20 @@ async fn run_task(task: usize, prog: Vec<Value>, mut io: TaskIo, inc: u32) {
                 s.await;
                 json!("ok")
             }
+            "handpoll" => {
+                // first polled with a waker that is not this task's (as if another task had polled it), then awaited here
+                let mut sl = Box::pin(sleep(da));
+                {
+                    let mut cx = std::task::Context::from_waker(std::task::Waker::noop());
+                    let _ = sl.as_mut().poll(&mut cx);
+                }
+                sl.await;
+                json!("ok")
+            }
+            "yield" => {
+                tokio::task::yield_now().await;
+                json!("ok")
+            }
             "twin" => {
                 // two timers of this task for the same deadline, both registered; the first one is dropped again
                 let mut first = Box::pin(sleep(da));
